@@ -742,6 +742,51 @@ def ParamAlias(rng):
   return Prog([E, T, G, H, A, B, C]), ['A', 'B', 'C'], ['fam_param_alias']
 
 
+def NestedIn(rng):
+  """`l in ll, x in l` over a list of lists: the second unnesting depends on
+  the first, in whatever order the conjuncts are written."""
+  i, x, y, l, ll = Var('i'), Var('x'), Var('y'), Var('l'), Var('ll')
+  def LL(rows):
+    return ListE([ListE([Lit(N_(v)) for v in r]) for r in rows])
+  L = Pred('L', [Rule([('col0', Lit(N_(1)), ''), ('col1', LL([[1, 2], [3]]), '')]),
+                 Rule([('col0', Lit(N_(2)), ''),
+                       ('col1', LL([[4], [4, rng.randint(4, 6)], []]), '')])])
+  P = Pred('P', [Rule([('col0', i, ''), ('col1', x, '')],
+                      [Atom('L', [('col0', i), ('col1', ll)]), Inc(l, ll), Inc(x, l)])])
+  Q = Pred('Q', [Rule([('col0', i, ''), ('col1', x, ''), ('col2', y, '')],
+                      [Inc(y, l), Inc(x, l), Cmp(Op('<', x, y)), Inc(l, ll),
+                       Atom('L', [('col0', i), ('col1', ll)])])])
+  R = Pred('R', [Rule([('col0', i, ''), ('logica_value', x, 'Sum')],
+                      [Inc(x, l), Inc(l, ll), Atom('L', [('col0', i), ('col1', ll)])],
+                      True)])
+  return Prog([L, P, Q, R]), ['P', 'Q', 'R'], ['fam_nested_in']
+
+
+def RecordPattern(rng):
+  """`{a: x, b: y} == r`: assignment to variables in record fields, also with
+  a ground field that has to match and with the pattern on the right."""
+  a, b, r = Var('a'), Var('b'), Var('r')
+  rows = [(1, 'x'), (2, 'y'), (2, 'x'), (rng.randint(1, 3), 'y')]
+  T = Pred('T', [Rule([('col0', RecE([('a', Lit(N_(n))), ('b', Lit(S(s)))]), '')])
+                 for n, s in rows])
+  U = Facts('U', [(1,), (2,), (2,)])
+  E = Pred('E', [Rule([('col0', a, ''), ('col1', b, '')],
+                      [Atom('T', [('col0', r)]),
+                       Unify(RecE([('a', a), ('b', b)]), r)])])
+  F = Pred('F', [Rule([('col0', b, '')],
+                      [Atom('T', [('col0', r)]), Atom('U', [('col0', a)]),
+                       Unify(r, RecE([('a', a), ('b', b)]))])])
+  G = Pred('G', [Rule([('col0', a, ''), ('logica_value', Lit(N_(1)), 'Sum')],
+                      [Atom('T', [('col0', r)]),
+                       Unify(RecE([('a', a), ('b', Lit(S('x')))]), r)], True)])
+  H = Pred('H', [Rule([('col0', a, ''), ('col1', b, '')],
+                      [Atom('U', [('col0', a)]),
+                       Unify(RecE([('a', Var('p')), ('b', b)]),
+                             RecE([('a', Op('+', a, Lit(N_(1)))), ('b', Lit(S('k')))])),
+                       Cmp(Op('>', Var('p'), Lit(N_(2))))])])
+  return Prog([T, U, E, F, G, H]), ['E', 'F', 'G', 'H'], ['fam_record_pattern']
+
+
 SEM_FAMILIES = [('if_chain', IfChain), ('repeated_call', RepeatedCall),
                 ('sibling_combines', SiblingCombines),
                 ('double_negation', DoubleNegation),
@@ -753,7 +798,9 @@ SEM_FAMILIES = [('if_chain', IfChain), ('repeated_call', RepeatedCall),
                 ('multi_disj_conj', MultiDisjConj),
                 ('in_expr_repeated', InExprRepeated),
                 ('union_named_positional', UnionNamedPositional),
-                ('param_alias', ParamAlias)]
+                ('param_alias', ParamAlias),
+                ('nested_in', NestedIn),
+                ('record_pattern', RecordPattern)]
 
 
 # ---- C18: ordered / limited predicates in less common places ---------------------
